@@ -121,8 +121,12 @@ Spec == M!Spec
 LocOK == M!LocOK
 Denotation == M!Denotation
 Terminates == M!Terminates
-Export == M!Export
-ASSUME PrintT(ToJson([docs |-> M!DocsPlain, ctx |-> TheCtx]))
+\* a second filter context: the same compiled query evaluated on the same document must follow the context it is given
+Ctx2 == Obj(<<v_, w_, l_, n_>>, <<IntV(2), S(b_), Arr(<<IntV(3)>>), Obj(<<v_>>, <<IntV(1)>>)>>)
+Export == M!Terminal => PrintT(ToJson([q |-> q, texts |-> [s \in 1..Len(StyleSeq) |-> Render(q, StyleSeq[s])],
+                                        res |-> [d \in 1..Len(DocSeq) |-> [i \in 1..Len(nodes[d]) |-> nodes[d][i].loc]],
+                                        res2 |-> [d \in 1..Len(DocSeq) |-> [i \in 1..Len(EvalCtx(q, DocSeq[d], Ctx2)) |-> EvalCtx(q, DocSeq[d], Ctx2)[i].loc]]]))
+ASSUME PrintT(ToJson([docs |-> M!DocsPlain, ctx |-> TheCtx, ctx2 |-> Ctx2]))
 
 \* ---- Desugar: every alias construct has a standard form with the same meaning --------
 RECURSIVE DesugarE(_), DesugarQ(_)
